@@ -39,7 +39,7 @@ class Prop(SeqProp):
     rule = ("TmpPool: random create/remove/flush scripts with files deleted behind the pool's back, removal of unlisted paths, "
             "and the with-body left normally or through an exception at a random step; single-process pools in-process, "
             "multi_proc pools with a real Manager and real forked children driven over pipes (children create/remove/flush "
-            "before and after the parent's flush); after every op the pool's listing and the directory listing are compared "
+            "before and after the parent's flush), and pools constructed in one process whose with-block runs in a forked child; after every op the pool's listing and the directory listing are compared "
             "with the Lean model; FilePool: 0-5 files, modes r/w/a, left normally or by exception; non-trivial = a flush or "
             "exit with files created")
     trusted_base = ["Lean 4.33.0 kernel", "axioms: propext, Classical.choice, Quot.sound (audited per theorem)",
@@ -63,6 +63,10 @@ class Prop(SeqProp):
             Case(["new", "create 0", "create 0", "unlink 0", "remove 0 0", "remove 0 5", "create 0", "raise"], {"mp": False},
                  "deleted behind the back, unlisted removal, exception exit"),
             Case(["fp_new 0 1 2", "fp_enter", "fp_raise"], {"mp": False, "modes": "w"}, "FilePool left by exception"),
+            Case(["new", "create 0", "create 0", "remove 0 0", "create 0", "exit"], {"mp": False, "foreign": True},
+                 "pool constructed in one process, with-block in a forked child"),
+            Case(["new", "create 0", "fork 0", "create 1", "flush 1", "create 1", "create 0", "raise"], {"mp": True, "foreign": True},
+                 "multi_proc pool constructed in one process, entered and left (by exception) in a forked child with children of its own"),
         ]
 
     def gen(self, rng, n, tier):
@@ -92,7 +96,10 @@ class Prop(SeqProp):
                 else:
                     ops.append(f"create {pid}"); created += 1
             ops.append(rng.choice(["exit", "raise"]))
-            yield Case(ops, {"mp": mp_case})
+            meta = {"mp": mp_case}
+            if (not mp_case and rng.random() < 0.04) or (mp_case and k % 4 == 3):
+                meta["foreign"] = True  # constructed in this process, the with-block runs in a forked child
+            yield Case(ops, meta)
 
     # ---- implementation ------------------------------------------------------------------------------------------------
     def run_impl(self, case):
@@ -107,6 +114,37 @@ class Prop(SeqProp):
         d = os.path.join(self.scratch, f"pool{random.getrandbits(40)}")
         os.mkdir(d)
         mp_mode = case.meta.get("mp", False)
+        ctx = multiprocessing.get_context("fork")
+        if not case.meta.get("foreign", False):
+            return self._tmppool_script(case, d, mp_mode, None)
+        # the pool object is constructed here, but the `with` block (enter, body, exit) runs in another process: a forked
+        # child that inherited the object.  Same history, same model — whoever leaves the context has to clean up.
+        pre = TmpPool(d, multi_proc=mp_mode)
+        a, b = ctx.Pipe()
+
+        def runner():
+            try:
+                b.send(("out", self._tmppool_script(case, d, mp_mode, pre, cleanup=False)))
+            except BaseException as e:  # noqa
+                b.send(("err", err_name(e)))
+
+        proc = ctx.Process(target=runner)
+        proc.start()
+        try:
+            if not a.poll(50):
+                raise core.Timeout()
+            rep = a.recv()
+        finally:
+            proc.join(5)
+            if proc.is_alive():
+                proc.kill(); proc.join(2)
+            core.cleanup_dir(d)
+        if rep[0] != "out":
+            raise core.HarnessError(f"foreign-process runner failed: {rep}")
+        return rep[1]
+
+    def _tmppool_script(self, case, d, mp_mode, pre, cleanup=True):
+        from windpyutils.files import TmpPool
         ctx = multiprocessing.get_context("fork")
         pool = None
         paths = []  # idx -> path
@@ -136,7 +174,8 @@ class Prop(SeqProp):
                 w = op.split()
                 try:
                     if w[0] == "new":
-                        pool = TmpPool(d, multi_proc=mp_mode)
+                        pool = pre if pre is not None else TmpPool(d, multi_proc=mp_mode)
+                        pre = None
                         pool.__enter__()
                         r = "ok"
                     elif w[0] == "create":
@@ -217,7 +256,8 @@ class Prop(SeqProp):
                     pool.__exit__(None, None, None)
                 except Exception:
                     pass
-            core.cleanup_dir(d)
+            if cleanup:
+                core.cleanup_dir(d)
         return out
 
     def run_filepool(self, case):
